@@ -225,9 +225,9 @@ class DistanceF64(Harness):
     def __init__(self, wrong=None, family=None):
         self.wrong, self.family = wrong, family
         self.name = "coords.distance.float64" + ("." + family if family else "") + (".twin-" + wrong if wrong else "")
-        self.bounds = ("two float64 vectors with |component| <= 1 and squared norm (as computed in float64) within 2^-51 of 1 -- what "
+        self.bounds = ("two float64 vectors with |component| <= 1 and squared norm (as computed in float64) within 2^-48 of 1 -- a superset of what "
                        "to_3d can return; all 2^384 bit patterns in that set" + {None: "", "x_axis": " with a = (1, 0, 0)", "antipodal": " with b = -a"}[family])
-        self.assumptions = ("to_3d returns vectors whose float64 squared norm is within 2 ulp of 1",
+        self.assumptions = ("to_3d returns vectors whose float64 squared norm is within 2^-48 of 1 (three factors with < 1 ulp error each, squared and summed: < 2^-49)",
                             "libm arcsin: finite, sign preserving, zero only at zero (no accuracy claim about arcsin itself)")
         self.must_fail = wrong is not None
 
@@ -241,7 +241,7 @@ class DistanceF64(Harness):
             if self.wrong:
                 continue  # the twin only has to show that the obligations can fail: any vectors in the box
             n2 = v[0, 0] * v[0, 0] + v[0, 1] * v[0, 1] + v[0, 2] * v[0, 2]
-            eng.assume((n2 >= 1.0 - 2.0**-51) & (n2 <= 1.0 + 2.0**-51))
+            eng.assume((n2 >= 1.0 - 2.0**-48) & (n2 <= 1.0 + 2.0**-48))
         # sub-families of the general case, run as separate harnesses: they add no claim (the unrestricted harness contains
         # them) but a bit-blasted search finds counterexamples there in seconds and in the general case only after many minutes
         if self.family == "x_axis":
